@@ -1,6 +1,7 @@
 package relays
 
 import (
+	"encoding/hex"
 	"fmt"
 	"os"
 	"sort"
@@ -10,6 +11,7 @@ import (
 
 	"github.com/pokt-network/pocket-core/crypto"
 	sdk "github.com/pokt-network/pocket-core/types"
+	nodesTypes "github.com/pokt-network/pocket-core/x/nodes/types"
 	pocketKeeper "github.com/pokt-network/pocket-core/x/pocketcore/keeper"
 	pocketTypes "github.com/pokt-network/pocket-core/x/pocketcore/types"
 
@@ -30,6 +32,13 @@ import (
 //	chain 0021: stakers = K + other (no self) = SessionNodeCount -> a session exists and self is NOT in it
 //	chain 0003: hosted by self, staked by self and the K peers (self is in the session), the application is not staked for it
 //	chain 0040: application staked, self and the K peers staked (self is in the session), but self does not host it
+//
+// Optionally (relayWorldOpts.TxsAt) the validator set changes by real transactions while the chain runs: an
+// edit-stake replaces a node's chains in the block it is delivered in, the funded "joiner" key stakes as a new
+// node. A session is formed from the nodes staked for the chain in the state of its first block, so membership
+// stays decidable: self edit-staking onto 0021 after the session's first block is not in that session; at or
+// before it, together with "other" edit-staking away from 0021 in the same block, the 0021 stakers are again
+// exactly SessionNodeCount nodes, self among them.
 type relayWorld struct {
 	spec     chain.Spec
 	n        *chain.Node
@@ -49,6 +58,41 @@ type relayWorld struct {
 	lean     bool
 	desc     string
 	entropy  int64
+	other    crypto.PrivateKey // the "other" node (genesis: staked for 0021 only)
+	joiner   crypto.PrivateKey // funded, not staked at genesis (or staked for chain 0050 only): joins chains by real txs
+	txLog    []string          // the validator-set transactions run while the world was built
+}
+
+// relayWorldOpts are the knobs of the fixture beyond the stake layout.
+type relayWorldOpts struct {
+	KBoth            int
+	Bps              int64
+	App0Stake        int64 // POKT
+	StopAt           int64
+	Lean             bool
+	SessionAllowance int64
+	// MaxEvidenceEntries is the node operator's max_evidence_cache_entries (0 = the default, 500): with a small
+	// value the evidence LRU reaches its capacity and the store flushes itself to its database.
+	MaxEvidenceEntries int
+	// JoinerGenesisChains: when non-empty the joiner node is a genesis validator staked for these chains.
+	JoinerGenesisChains []string
+	// TxsAt, when non-nil, is asked for the transactions of every block the world runs (heights 4..StopAt):
+	// validator-set changes (stake, edit-stake) by real transactions; every one of them must succeed.
+	TxsAt func(w *relayWorld, height int64) []worldTx
+}
+
+// worldTx is one signed transaction of a world block with its description.
+type worldTx struct {
+	Desc  string
+	Bytes []byte
+}
+
+// stakeTx is a MsgStake of node key k for the given chains with one stake unit: a new stake if k is not staked,
+// otherwise an edit-stake that replaces the node's chains (same amount, effective in the block it is delivered in).
+func (w *relayWorld) stakeTx(name string, k crypto.PrivateKey, chains []string) worldTx {
+	msg := &nodesTypes.MsgStake{PublicKey: k.PublicKey(), Chains: append([]string{}, chains...), Value: sdk.NewInt(chain.StakeUnit),
+		ServiceUrl: "https://node.example:443", Output: chain.Addr(k)}
+	return worldTx{Desc: fmt.Sprintf("MsgStake{%s chains=%v}", name, chains), Bytes: chain.SignTx(w.spec.ChainID, msg, chain.DefaultFee, "", w.nextEntropy(), k)}
 }
 
 const relayBackendReply = `{"id":1,"jsonrpc":"2.0","result":"0x10d4f"}`
@@ -56,6 +100,11 @@ const relayBackendReply = `{"id":1,"jsonrpc":"2.0","result":"0x10d4f"}`
 // newRelayWorld builds the fixture. app0Stake (in POKT) fixes the application's relay budget:
 // per-node allowance = round(app0Stake / 3 chains / SessionNodeCount).
 func newRelayWorld(rt *rapid.T, kBoth int, bps int64, app0Stake int64, stopAt int64, lean bool, sessionAllowance int64) *relayWorld {
+	return newRelayWorldOpts(rt, relayWorldOpts{KBoth: kBoth, Bps: bps, App0Stake: app0Stake, StopAt: stopAt, Lean: lean, SessionAllowance: sessionAllowance})
+}
+
+func newRelayWorldOpts(rt *rapid.T, o relayWorldOpts) *relayWorld {
+	kBoth, bps, app0Stake, stopAt, lean, sessionAllowance := o.KBoth, o.Bps, o.App0Stake, o.StopAt, o.Lean, o.SessionAllowance
 	w := &relayWorld{spec: chain.DefaultSpec(), bps: bps, snc: int64(kBoth + 1), lean: lean}
 	s := &w.spec
 	fund := func(k crypto.PrivateKey) {
@@ -71,8 +120,14 @@ func newRelayWorld(rt *rapid.T, kBoth int, bps int64, app0Stake int64, stopAt in
 		s.Nodes = append(s.Nodes, chain.NodeSpec{Key: k, Stake: chain.StakeUnit, Chains: []string{"0001", "0021", "0040", "0003"}})
 	}
 	other := chain.Key("other")
+	w.other = other
 	fund(other)
 	s.Nodes = append(s.Nodes, chain.NodeSpec{Key: other, Stake: chain.StakeUnit, Chains: []string{"0021"}})
+	w.joiner = chain.Key("joiner")
+	s.Accounts = append(s.Accounts, chain.AccountSpec{Key: w.joiner, Balance: 2*chain.StakeUnit + 1_000_000_000})
+	if len(o.JoinerGenesisChains) > 0 {
+		s.Nodes = append(s.Nodes, chain.NodeSpec{Key: w.joiner, Stake: chain.StakeUnit, Chains: o.JoinerGenesisChains})
+	}
 	w.app0, w.app1, w.ghost = chain.Key("app0"), chain.Key("app1"), chain.Key("ghost")
 	w.client, w.rogue = chain.Key("client"), chain.Key("rogue-client")
 	for _, k := range []crypto.PrivateKey{w.app0, w.app1, w.ghost} {
@@ -81,12 +136,26 @@ func newRelayWorld(rt *rapid.T, kBoth int, bps int64, app0Stake int64, stopAt in
 	s.Apps = append(s.Apps, chain.AppSpec{Key: w.app0, Stake: app0Stake * 1_000_000, Chains: []string{"0001", "0021", "0040"}})
 	s.Apps = append(s.Apps, chain.AppSpec{Key: w.app1, Stake: 3000 * 1_000_000, Chains: []string{"0001"}})
 	s.NodeParams.SessionBlockFrequency = bps
-	s.NodeParams.MaxValidators = int64(kBoth + 3)
+	s.NodeParams.MaxValidators = int64(kBoth + 4)
 	s.PocketParams.SessionNodeCount = w.snc
 	s.PocketParams.SupportedBlockchains = []string{"0001", "0021", "0003", "0040"}
 	w.n = chain.NewNode(s)
 	for w.n.Height < stopAt {
-		w.n.RunBlock(chain.Block{DT: time.Second})
+		b := chain.Block{DT: time.Second}
+		var txs []worldTx
+		if o.TxsAt != nil {
+			txs = o.TxsAt(w, w.n.Height+1)
+			for _, t := range txs {
+				b.Txs = append(b.Txs, t.Bytes)
+			}
+		}
+		r := w.n.RunBlock(b)
+		for i, t := range r.Txs {
+			if t.Code != 0 {
+				rt.Fatalf("world transaction %s in block %d failed: code %d %s", txs[i].Desc, r.Height, t.Code, t.Log)
+			}
+			w.txLog = append(w.txLog, fmt.Sprintf("h%d:%s", r.Height, txs[i].Desc))
+		}
 	}
 	var err error
 	w.work, err = os.MkdirTemp(os.Getenv("VERIF_WORK"), "relayworld-")
@@ -99,11 +168,11 @@ func newRelayWorld(rt *rapid.T, kBoth int, bps int64, app0Stake int64, stopAt in
 	pocketTypes.GlobalPocketConfig.ClientSessionSyncAllowance = sessionAllowance
 	pocketTypes.GlobalPocketConfig.JSONSortRelayResponses = true
 	pocketTypes.GlobalPocketConfig.RelayErrors = false
-	w.selfNode = rf.RegisterServicer(w.self, w.work, 0)
+	w.selfNode = rf.RegisterServicer(w.self, w.work, o.MaxEvidenceEntries)
 	w.backend = rf.NewBackend(relayBackendReply)
 	w.k = w.n.App.VerifPocketKeeper()
 	rf.HostChains(w.k, w.backend.Srv.URL, "0001", "0021", "0003")
-	w.desc = fmt.Sprintf("relayworld{peers=%d snc=%d bps=%d app0Stake=%d height=%d lean=%v sessionAllowance=%d}", kBoth, w.snc, bps, app0Stake, w.n.Height, lean, sessionAllowance)
+	w.desc = fmt.Sprintf("relayworld{peers=%d snc=%d bps=%d app0Stake=%d height=%d lean=%v sessionAllowance=%d evidenceLRU=%d txs=%v}", kBoth, w.snc, bps, app0Stake, w.n.Height, lean, sessionAllowance, w.selfNode.EvidenceStore.Cache.Cap(), w.txLog)
 	return w
 }
 
@@ -140,7 +209,7 @@ func (w *relayWorld) validRelayParams(sbh, metaHeight int64, data string) rf.Rel
 	}
 }
 
-// evidenceView reads the stored relay evidence of one session header without side effects (max = 0: no sealing).
+// evidenceView is the stored relay evidence of one session header, read without side effects.
 type evidenceView struct {
 	found  bool
 	sealed bool
@@ -149,11 +218,33 @@ type evidenceView struct {
 }
 
 func viewEvidence(node *pocketTypes.PocketNode, h pocketTypes.SessionHeader) evidenceView {
-	ev, err := pocketTypes.GetEvidence(h, pocketTypes.RelayEvidence, sdk.ZeroInt(), node.EvidenceStore)
+	// Not through GetEvidence/CacheStorage.Get: a read through the store pulls the object from the database
+	// into the LRU (and, with a full LRU, pushes another entry out), i.e. observing would change where the
+	// evidence lives. Peek at the LRU, else read and decode the database record, exactly as the store does.
+	store := node.EvidenceStore
+	key, err := pocketTypes.KeyForEvidence(h, pocketTypes.RelayEvidence)
 	if err != nil {
 		return evidenceView{}
 	}
-	v := evidenceView{found: true, num: ev.NumOfProofs, sealed: node.EvidenceStore.IsSealed(ev)}
+	var ev pocketTypes.Evidence
+	if val, ok := store.Cache.Peek(hex.EncodeToString(key)); ok {
+		if ev, ok = val.(pocketTypes.Evidence); !ok {
+			return evidenceView{}
+		}
+	} else {
+		bz, _ := store.DB.Get(key)
+		if len(bz) == 0 {
+			return evidenceView{}
+		}
+		obj, err := pocketTypes.Evidence{}.UnmarshalObject(bz)
+		if err != nil {
+			return evidenceView{}
+		}
+		if ev, ok = obj.(pocketTypes.Evidence); !ok {
+			return evidenceView{}
+		}
+	}
+	v := evidenceView{found: true, num: ev.NumOfProofs, sealed: store.IsSealed(ev)}
 	for _, p := range ev.Proofs {
 		v.hashes = append(v.hashes, proofID(p))
 	}
